@@ -199,7 +199,7 @@ theorem housekeep_keptC (env : CryptoEnv) (o : Oracle) (n : Node) (now : Int) : 
   -- the last step: reset of the own addresses
   have hown : ∀ c5 : Ctx, KeptC (alive n now) c5 →
       KeptC (alive n now) (if c5.node.nextOwnReset ≤ now then
-        { c5 with node := { c5.node with own := [c5.node.addr], nextOwnReset := now + 300 } } else c5) := by
+        { c5 with node := { c5.node with own := c5.node.cfg.advertise ++ [c5.node.addr], nextOwnReset := now + 300 } } else c5) := by
     intro c5 h5
     split
     · exact h5
